@@ -13,6 +13,7 @@ import Driver.C01
 import Driver.C02
 import Driver.C10
 import Driver.C09
+import Driver.C04
 open Driver
 
 def dispatch (id : String) (toks : List String) (impl : String) : Verdict :=
@@ -31,6 +32,7 @@ def dispatch (id : String) (toks : List String) (impl : String) : Verdict :=
   | "C02" => Driver.C02.handle toks impl
   | "C10" => Driver.C10.handle toks impl
   | "C09" => Driver.C09.handle toks impl
+  | "C04" => Driver.C04.handle toks impl
   | _ => badOp "unknown property"
 
 /-- Split `line` at the first occurrence of " => ". -/
